@@ -199,3 +199,154 @@ Proof.
     replace (Nat.min o1 o2) with o2 by lia. rewrite Nat.eqb_refl.
     destruct (Nat.eqb_spec o2 o1); [lia|]. split; reflexivity.
 Qed.
+
+(* ------------------------------------------------------------------ __rebuild_rule *)
+
+Definition Rleader (d : db) (v v' : val) : Prop := v' = v \/ uffE d v v'.
+
+Lemma eq_cols_range : forall cols i j, In j (eq_cols cols i) -> i <= j < i + length cols.
+Proof.
+  induction cols as [|b tl IH]; intros i j H; cbn [eq_cols] in H; [destruct H|].
+  apply in_app_or in H. destruct H as [H|H].
+  - destruct b; [destruct H as [<-|[]]; cbn [length]; lia|destruct H].
+  - apply IH in H. cbn [length]. lia.
+Qed.
+
+Lemma new_cols_rel d e n : forall cols i k k',
+  map (lookup e) (seq i (length cols)) = map Some k ->
+  (forall j, In j (eq_cols cols i) -> exists a b, lookup e j = Some a /\ lookup e (lead n j) = Some b /\ uffE d a b) ->
+  eval_exprs e (new_cols n cols i) = Some k' -> Forall2 (Rleader d) k k'.
+Proof.
+  induction cols as [|b tl IH]; intros i k k' Hk Heq Hev; cbn [length seq map new_cols eval_exprs] in *.
+  - destruct k; [|discriminate]. injection Hev as <-. constructor.
+  - destruct k as [|v ktl]; [discriminate|]. cbn [map] in Hk. injection Hk as Hv Hk.
+    destruct (eval_expr e (if b then EVar (lead n i) else EVar i)) as [v'|] eqn:E1; [|discriminate].
+    destruct (eval_exprs e (new_cols n tl (S i))) as [k'tl|] eqn:E2; [|discriminate].
+    injection Hev as <-. constructor.
+    + destruct b; cbn [eval_expr] in E1.
+      * destruct (Heq i) as (a & b0 & La & Lb & Hu); [cbn [eq_cols]; simpl; auto|].
+        rewrite Hv in La. injection La as <-. rewrite E1 in Lb. injection Lb as <-. right. exact Hu.
+      * rewrite Hv in E1. injection E1 as <-. left. reflexivity.
+    + eapply IH; [exact Hk| |exact E2]. intros j Hj. apply Heq. cbn [eq_cols]. apply in_or_app. right. exact Hj.
+Qed.
+
+Lemma rebuild_fired d f kinds ops o : rule_ops d (r_rebuild f kinds) = Ok ops -> In o ops ->
+  (forall r, In r (gett d (tView f)) -> length (dkey r) = S (length kinds)) ->
+  (forall r, In r (gett d tUFf) -> exists a, dkey r = [a]) ->
+  exists k k', viewE d f k /\ Forall2 (Rleader d) k k' /\ (o = OSet (tView f) k' unitv \/ o = ODel (tView f) k).
+Proof.
+  intros Hops Ho Hshv Hshu. destruct (rule_fired _ _ _ _ Hops Ho) as (e & os & Hs & Hg & Hi & Hin).
+  cbn [r_rebuild rbody rguards racts] in *. set (n := length kinds) in *.
+  inversion Hs as [|? ? (r & Hr & Hm) Hs']; subst. cbn [atab avars] in *.
+  unfold tuple in Hm. rewrite !map_app in Hm.
+  apply app_eq_length_inv in Hm; [|rewrite !map_length, seq_length; rewrite (Hshv _ Hr); reflexivity].
+  destruct Hm as [Hk _].
+  cbn [inst_acts inst_act] in Hi.
+  destruct (eval_exprs e (new_cols n (kinds ++ [true]) 0)) as [k'|] eqn:E1; [|discriminate].
+  cbn [eval_expr] in Hi.
+  destruct (eval_exprs e (map EVar (seq 0 (S n)))) as [k2|] eqn:E2; [|discriminate].
+  injection Hi as <-. apply eval_exprs_vars in E2. rewrite Hk in E2. apply map_Some_inj in E2. subst k2.
+  exists (dkey r), k'. split; [exists r; auto|]. split.
+  - apply (new_cols_rel d e n (kinds ++ [true]) 0); [rewrite app_length, Nat.add_comm; exact Hk| |exact E1].
+    intros j Hj. rewrite Forall_forall in Hs'.
+    destruct (Hs' (mkAtom tUFf [j; lead n j])) as (r' & Hr' & Hm'); [apply in_map_iff; exists j; auto|].
+    cbn [atab avars] in *. destruct (Hshu _ Hr') as (a & Ha). unfold tuple in Hm'. rewrite Ha in Hm'.
+    cbn [map app] in Hm'. injection Hm' as L1 L2. exists a, (dval r'). split; [exact L1|]. split; [exact L2|].
+    exists r'. auto.
+  - destruct Hin as [<-|[<-|[]]]; auto.
+Qed.
+
+Lemma any_neq_true e : forall l,
+  (forall a b, In (a, b) l -> exists x y, eval_expr e a = Some x /\ eval_expr e b = Some y) ->
+  (exists a b x y, In (a, b) l /\ eval_expr e a = Some x /\ eval_expr e b = Some y /\ x <> y) ->
+  any_neq e l = Some true.
+Proof.
+  induction l as [|[a b] tl IH]; intros Hall Hex; [destruct Hex as (a & b & x & y & [] & _)|].
+  cbn [any_neq]. destruct (Hall a b) as (x & y & Ea & Eb); [left; reflexivity|]. rewrite Ea, Eb.
+  assert (Htl : exists r, any_neq e tl = Some r).
+  { clear IH Hex. induction tl as [|[a' b'] tl' IH']; [eexists; reflexivity|]. cbn [any_neq].
+    destruct (Hall a' b') as (x' & y' & Ea' & Eb'); [right; left; reflexivity|]. rewrite Ea', Eb'.
+    destruct IH' as [r Hr]; [intros a0 b0 [E|H]; apply Hall; [left; exact E|right; right; exact H]|].
+    rewrite Hr. eexists. reflexivity. }
+  destruct (val_eqb x y) eqn:Exy.
+  - destruct Hex as (a' & b' & x' & y' & [E|Hin] & Ea' & Eb' & Hne).
+    + injection E as <- <-. rewrite Ea in Ea'. rewrite Eb in Eb'. injection Ea' as <-. injection Eb' as <-.
+      apply val_eqb_eq in Exy. contradiction.
+    + rewrite IH; [reflexivity| |exists a', b', x', y'; auto].
+      intros a0 b0 H. apply Hall. right. exact H.
+  - destruct Htl as [r ->]. reflexivity.
+Qed.
+
+Lemma new_cols_defined e n : forall cols i,
+  (forall j, i <= j < i + length cols -> lookup e j <> None) ->
+  (forall j, In j (eq_cols cols i) -> lookup e (lead n j) <> None) ->
+  exists k', eval_exprs e (new_cols n cols i) = Some k'.
+Proof.
+  induction cols as [|b tl IH]; intros i H1 H2; cbn [new_cols eval_exprs]; [eexists; reflexivity|].
+  destruct (IH (S i)) as (ktl & Hk).
+  - intros j Hj. apply H1. cbn [length]. lia.
+  - intros j Hj. apply H2. cbn [eq_cols]. apply in_or_app. right. exact Hj.
+  - rewrite Hk. destruct b; cbn [eval_expr].
+    + destruct (lookup e (lead n i)) eqn:E; [eexists; reflexivity|]. exfalso. apply (H2 i); [cbn [eq_cols]; simpl; auto|exact E].
+    + destruct (lookup e i) eqn:E; [eexists; reflexivity|]. exfalso. apply (H1 i); [cbn [length]; lia|exact E].
+Qed.
+
+Lemma rebuild_fire d f kinds ops k ls : rule_ops d (r_rebuild f kinds) = Ok ops ->
+  viewE d f k -> length k = S (length kinds) ->
+  (forall i, In i (eq_cols (kinds ++ [true]) 0) -> uffE d (nth i k unitv) (nth i ls unitv)) ->
+  (exists i, In i (eq_cols (kinds ++ [true]) 0) /\ nth i k unitv <> nth i ls unitv) ->
+  In (ODel (tView f) k) ops.
+Proof.
+  intros Hops (r & Hr & Hkr) Hlen Hu (i0 & Hi0 & Hne). set (n := length kinds) in *.
+  set (F := fun x => if x <? S n then Some (nth x k unitv)
+                     else if x <? 2 * n + 2 then Some (nth (x - (n + 1)) ls unitv) else Some (dval r)).
+  assert (Fk : map F (seq 0 (S n)) = map Some k).
+  { rewrite <- Hlen. apply (map_seq_nth F unitv). intros i Hi. cbn [Nat.add]. unfold F.
+    destruct (Nat.ltb_spec i (S n)); [reflexivity|lia]. }
+  assert (Flow : forall j, j < S n -> F j = Some (nth j k unitv)).
+  { intros j Hj. unfold F. destruct (Nat.ltb_spec j (S n)); [reflexivity|lia]. }
+  assert (Flead : forall j, j < S n -> F (lead n j) = Some (nth j ls unitv)).
+  { intros j Hj. unfold F, lead. destruct (Nat.ltb_spec (n + 1 + j) (S n)); [lia|].
+    destruct (Nat.ltb_spec (n + 1 + j) (2 * n + 2)); [|lia]. f_equal. f_equal. lia. }
+  assert (Hrange : forall j, In j (eq_cols (kinds ++ [true]) 0) -> j < S n).
+  { intros j Hj. apply eq_cols_range in Hj. rewrite app_length in Hj. cbn [length] in Hj. fold n in Hj. lia. }
+  apply (rule_fire1 d (r_rebuild f kinds) ops F).
+  - exact Hops.
+  - cbn [r_rebuild rbody]. fold n. constructor.
+    + exists r. split; [exact Hr|]. cbn [avars]. unfold tuple. rewrite Hkr, !map_app, Fk. cbn [map]. f_equal.
+      unfold F. destruct (Nat.ltb_spec (2 * n + 2) (S n)); [lia|]. destruct (Nat.ltb_spec (2 * n + 2) (2 * n + 2)); [lia|reflexivity].
+    + apply Forall_forall. intros a Ha. apply in_map_iff in Ha. destruct Ha as (j & <- & Hj).
+      destruct (Hu j Hj) as (r' & Hr' & Hk' & Hv'). exists r'. split; [exact Hr'|]. cbn [avars map].
+      unfold tuple. rewrite Hk', Hv'. cbn [app map]. rewrite (Flow j), (Flead j) by (apply Hrange; exact Hj). reflexivity.
+  - intros e He. cbn [r_rebuild rbody rguards racts] in *. fold n in He |- *.
+    assert (Llow : forall j, j < S n -> lookup e j = F j).
+    { intros j Hj. apply He. unfold body_vars. cbn [flat_map avars]. apply in_or_app. left. apply in_or_app. left.
+      apply in_seq. lia. }
+    assert (Llead : forall j, In j (eq_cols (kinds ++ [true]) 0) -> lookup e (lead n j) = F (lead n j)).
+    { intros j Hj. apply He. unfold body_vars. cbn [flat_map]. apply in_or_app. right.
+      apply in_flat_map. exists (mkAtom tUFf [j; lead n j]). split; [apply in_map_iff; exists j; auto|simpl; auto]. }
+    split.
+    + cbn [guards_ok guard_ok]. rewrite any_neq_true; [reflexivity| |].
+      * intros a b Hab. apply in_map_iff in Hab. destruct Hab as (j & E & Hj). injection E as <- <-.
+        cbn [eval_expr]. rewrite (Llow j), (Llead j Hj), (Flow j), (Flead j) by (try apply Hrange; auto). eauto.
+      * exists (EVar i0), (EVar (lead n i0)), (nth i0 k unitv), (nth i0 ls unitv).
+        split; [apply in_map_iff; exists i0; auto|]. cbn [eval_expr].
+        rewrite (Llow i0), (Llead i0 Hi0), (Flow i0), (Flead i0) by (try apply Hrange; auto). auto.
+    + cbn [inst_acts inst_act eval_expr].
+      destruct (new_cols_defined e n (kinds ++ [true]) 0) as (k' & Ek').
+      * intros j Hj. rewrite app_length in Hj. cbn [length] in Hj. fold n in Hj. rewrite Llow, Flow by lia. discriminate.
+      * intros j Hj. rewrite (Llead j Hj), Flead by (apply Hrange; exact Hj). discriminate.
+      * rewrite Ek'.
+        assert (E2 : eval_exprs e (map EVar (seq 0 (S n))) = Some k).
+        { apply eval_exprs_vars. rewrite <- Fk. apply map_ext_in. intros j Hj. apply in_seq in Hj. apply Llow. lia. }
+        rewrite E2. eexists. split; [reflexivity|]. simpl. auto.
+Qed.
+
+(* ------------------------------------------------------------------ __delete_rule *)
+
+Lemma delete_fired d f n ops o : rule_ops d (r_delete f n) = Ok ops -> In o ops -> gett d (tDel f) = [] -> False.
+Proof.
+  intros Hops Ho Hd. destruct (rule_fired _ _ _ _ Hops Ho) as (e & os & Hs & _).
+  cbn [r_delete rbody] in Hs. inversion Hs as [|? ? (r & Hr & _) _]; subst. cbn [atab] in Hr.
+  rewrite Hd in Hr. destruct Hr.
+Qed.
